@@ -3,7 +3,7 @@
     observable in Go).  Files of a level keep the code's order (append order). *)
 From Coq Require Import List NArith Bool.
 From Coq Require Import Init.Byte.
-From NoKV Require Import Base.Bytes Base.Num Model.ManifestCodec.
+From NoKV Require Import Base.Bytes Base.Num Model.PercoCodec Model.ManifestCodec.
 Import ListNotations.
 Local Open Scope N_scope.
 
@@ -119,3 +119,159 @@ Fixpoint replay_bytes (fuel : nat) (v : version) (bs : bytes) : replay_res :=
   end.
 
 Definition replay_manifest (bs : bytes) : replay_res := replay_bytes (S (length bs)) empty_version bs.
+
+(** * Rewrite, CURRENT replacement, Verify, crash states
+
+    The directory: CURRENT holds the id of the live manifest file (the name
+    "MANIFEST-%06d" and the id determine each other), CURRENT.tmp may exist
+    with any content, and manifest files by id.  A process crash keeps every
+    completed write / rename / remove; a torn last write keeps a byte prefix. *)
+
+(** writeSnapshot sorts the files of a level by id (sort.Slice; insertion
+    order among equal ids is not specified by Go — ids are unique per level in
+    every theorem) *)
+Fixpoint insert_file (f : file_meta) (l : list file_meta) : list file_meta :=
+  match l with
+  | [] => [f]
+  | g :: l' => if fm_id f <? fm_id g then f :: l else g :: insert_file f l'
+  end.
+Definition sort_files (l : list file_meta) : list file_meta := fold_right insert_file [] l.
+
+(** writeSnapshot (after the repair fixes/manifest-reload-equals-memory.md: every
+    value-log entry is written as EditUpdateValueLog) *)
+Definition snapshot_edits (v : version) : list edit :=
+  concat (map (fun lf => map EAddFile (sort_files (snd lf))) (v_levels v)) ++
+  [ELogPointer (v_logseg v) (v_logoff v)] ++
+  map (fun x => EVlogUpdate (Some (snd x))) (v_vlogs v) ++
+  map (fun x => EVlogHead (Some (snd x))) (v_heads v) ++
+  map (fun x => ERaftPointer (Some (snd x))) (v_rafts v) ++
+  map (fun x => ERegion (Some {| re_meta := snd x; re_delete := false |})) (v_regions v).
+
+Definition enc_all (es : list edit) : bytes := concat (map enc_edit es).
+
+Record fsys := {
+  f_current : option N;            (* CURRENT *)
+  f_tmp : option bytes;            (* CURRENT.tmp *)
+  f_man : list (N * bytes)         (* MANIFEST-<id> *)
+}.
+
+Definition man_get (fs : fsys) (id : N) : option bytes := lookup N.eqb id (f_man fs).
+Definition man_set (fs : fsys) (id : N) (bs : bytes) : fsys :=
+  {| f_current := f_current fs; f_tmp := f_tmp fs; f_man := upsert N.ltb N.eqb id bs (f_man fs) |}.
+Definition man_del (fs : fsys) (id : N) : fsys :=
+  {| f_current := f_current fs; f_tmp := f_tmp fs; f_man := remove_key N.eqb id (f_man fs) |}.
+Definition set_tmp (fs : fsys) (t : option bytes) : fsys :=
+  {| f_current := f_current fs; f_tmp := t; f_man := f_man fs |}.
+Definition set_current (fs : fsys) (c : N) : fsys :=
+  {| f_current := Some c; f_tmp := f_tmp fs; f_man := f_man fs |}.
+
+Record mgr := {
+  m_fs : fsys; m_cur : N; m_next : N; m_ver : version;
+  m_thr : N                        (* rewrite threshold, 0 = disabled *)
+}.
+
+(** createNew *)
+Definition empty_fs : fsys := {| f_current := None; f_tmp := None; f_man := [] |}.
+Definition create_new (thr : N) : mgr :=
+  {| m_fs := set_current (man_set empty_fs 1 []) 1; m_cur := 1; m_next := 2; m_ver := empty_version; m_thr := thr |}.
+
+(** nextManifestFileLocked: first id >= next that does not exist *)
+Fixpoint next_free (fuel : nat) (fs : fsys) (id : N) : N :=
+  match fuel with
+  | O => id
+  | S f => match man_get fs id with None => id | Some _ => next_free f fs (id + 1) end
+  end.
+
+Definition cur_bytes (m : mgr) : bytes := match man_get (m_fs m) (m_cur m) with Some b => b | None => [] end.
+
+(** the in-memory part of logEditsLocked and the append, before maybeRewrite *)
+Definition appended (m : mgr) (batch : list edit) : mgr :=
+  {| m_fs := man_set (m_fs m) (m_cur m) (cur_bytes m ++ enc_all batch); m_cur := m_cur m; m_next := m_next m;
+     m_ver := apply_all (m_ver m) batch; m_thr := m_thr m |}.
+
+Definition needs_rewrite (m : mgr) : bool := (0 <? m_thr m) && (m_thr m <=? blen (cur_bytes m)).
+
+Definition new_id (m : mgr) : N := next_free (S (length (f_man (m_fs m)))) (m_fs m) (m_next m).
+
+(** rewriteLocked, all effects completed *)
+Definition rewritten (m : mgr) : mgr :=
+  let id := new_id m in
+  {| m_fs := man_del (set_tmp (set_current (man_set (m_fs m) id (enc_all (snapshot_edits (m_ver m)))) id) None) (m_cur m);
+     m_cur := id; m_next := id + 1; m_ver := m_ver m; m_thr := m_thr m |}.
+
+(** LogEdits *)
+Definition log_edits (m : mgr) (batch : list edit) : mgr :=
+  let m1 := appended m batch in
+  if needs_rewrite m1 then rewritten m1 else m1.
+
+Definition log_all (m : mgr) (batches : list (list edit)) : mgr := fold_left log_edits batches m.
+
+(** the file systems a crash during [LogEdits m batch] can leave behind *)
+Inductive crash_fs (m : mgr) (batch : list edit) : fsys -> Prop :=
+| CrAppend c :                        (* the append, torn at any byte (0 = before, all = complete) *)
+    crash_fs m batch (man_set (m_fs m) (m_cur m) (cur_bytes m ++ take c (enc_all batch)))
+| CrSnapshot c :                      (* new manifest created; snapshot write torn at any byte *)
+    needs_rewrite (appended m batch) = true ->
+    crash_fs m batch (man_set (m_fs (appended m batch)) (new_id (appended m batch))
+                              (take c (enc_all (snapshot_edits (m_ver (appended m batch))))))
+| CrTmp t :                           (* snapshot complete; CURRENT.tmp written (any content) *)
+    needs_rewrite (appended m batch) = true ->
+    crash_fs m batch (set_tmp (man_set (m_fs (appended m batch)) (new_id (appended m batch))
+                                       (enc_all (snapshot_edits (m_ver (appended m batch))))) (Some t))
+| CrRenamed :                         (* CURRENT.tmp renamed over CURRENT; old manifest still there *)
+    needs_rewrite (appended m batch) = true ->
+    crash_fs m batch (set_tmp (set_current (man_set (m_fs (appended m batch)) (new_id (appended m batch))
+                                       (enc_all (snapshot_edits (m_ver (appended m batch))))) (new_id (appended m batch))) None)
+| CrRemoved :                         (* old manifest removed: the final state *)
+    needs_rewrite (appended m batch) = true ->
+    crash_fs m batch (m_fs (rewritten (appended m batch))).
+
+(** Verify: scan the records of the live manifest; a partial tail is cut off, an
+    undecodable complete record is an error *)
+Fixpoint verify_scan (fuel : nat) (off : N) (bs : bytes) : option N :=
+  match fuel with
+  | O => None
+  | S f =>
+      match rd_le32 bs with
+      | None => Some off
+      | Some len =>
+          let r := drop 4 bs in
+          if blen r <? len then Some off
+          else match decode_edit (take len r) with
+               | DVal _ => verify_scan f (off + 4 + len) (drop len r)
+               | _ => None
+               end
+      end
+  end.
+
+Definition verify_bytes (bs : bytes) : option bytes :=
+  match bs with
+  | [] => Some []
+  | _ => match verify_scan (S (length bs)) 0 bs with
+         | Some off => Some (take off bs)
+         | None => None
+         end
+  end.
+
+(** Verify (ErrNotExist ignored, as db.go does) then Open, as the version read back.
+    No CURRENT, or CURRENT naming a missing file: Open falls back to createNew. *)
+Definition recover (fs : fsys) : replay_res :=
+  match f_current fs with
+  | None => RpOk empty_version
+  | Some id =>
+      match man_get fs id with
+      | None => RpOk empty_version
+      | Some bs =>
+          match verify_bytes bs with
+          | None => RpErr
+          | Some bs' => replay_manifest bs'
+          end
+      end
+  end.
+
+(** Open without a preceding crash (no torn tail): what a clean reopen reads *)
+Definition reload (fs : fsys) : replay_res :=
+  match f_current fs with
+  | None => RpOk empty_version
+  | Some id => match man_get fs id with None => RpOk empty_version | Some bs => replay_manifest bs end
+  end.
